@@ -104,12 +104,15 @@ class ImmutabilityMonitor(Monitor):
         outs = _datas(res)
         if not outs:
             return
+        obufs = [(o.data if isinstance(o, UTPM) else o) for (pth, o, _) in ev.snaps if pth[:2] == ('k', 'out')]
         for (path, obj, before) in ev.snaps:
             if path[:2] == ('k', 'out'):
                 continue          # results are written into the caller's out= buffers by design
             now = obj.data if isinstance(obj, UTPM) else obj
             if now.size == 0:
                 continue
+            if any(np.may_share_memory(now, b) for b in obufs):
+                continue          # the caller handed the argument itself as out= buffer (overwrite-the-input form)
             for o in outs:
                 if o.size and np.shares_memory(o, now):
                     self.ctx.violation('result-aliases-argument:%s' % ev.name, {'call': ev.name, 'argument': list(path), 'depth': ev.depth,
@@ -276,6 +279,7 @@ def _np_table():
 
 NP_TABLE = _np_table()
 CMP = {'__lt__': operator.lt, '__le__': operator.le, '__gt__': operator.gt, '__ge__': operator.ge, '__eq__': operator.eq}
+DATA_MOVEMENT = {'diag', 'triu', 'tril', 'reshape', 'transpose', 'tile', 'real', 'imag', '__getitem__', '__neg__', 'neg', 'negative', 'symvec', 'vecsym'}
 PARTIAL = {'eigh': 'eigh', 'eig': 'eig', 'svd': 'svd'}      # factor matrices fixed only up to convention: compare the invariant part
 
 
@@ -295,7 +299,8 @@ class ZerothMonitor(Monitor):
             return self._compare(ev, res)
         if name not in NP_TABLE and name not in PARTIAL:
             self.ctx.skip('no-numpy-counterpart:' + name); return
-        if not all(np.all(np.isfinite(c)) for (_, _, c) in ev.snaps):
+        nonfinite = not all(np.all(np.isfinite(c)) for (_, _, c) in ev.snaps)
+        if nonfinite and name not in DATA_MOVEMENT:
             self.ctx.skip('nonfinite-input'); return
         Ps = {c.shape[1] for (_, _, c) in ua}
         if len(Ps) != 1:
@@ -336,6 +341,11 @@ class ZerothMonitor(Monitor):
                 g = np.asarray(g)
                 if g.shape != r.shape:
                     self.ctx.violation('zeroth:%s:shape' % name, {'call': name, 'output': k, 'got': g.shape, 'want': r.shape, 'direction': p}); return
+                if nonfinite:
+                    # selecting, moving or discarding entries: inf and nan travel with the entry, discarded entries are exactly 0
+                    if not np.array_equal(g, r, equal_nan=True):
+                        self.ctx.violation('zeroth:%s:value:nonfinite-entries' % name, {'call': name, 'output': k, 'direction': p, 'got': repr(g)[:150], 'want': repr(r)[:150]}); return
+                    continue
                 if not np.all(np.isfinite(r.astype(complex))):
                     continue
                 sc = np.max(np.abs(r)) + 1e-300 if r.size else 1.0
